@@ -104,7 +104,7 @@ def run_case(arg):
             # 5. integer origin -> corner is the circular roll
             ro = np.array(case["rollOrigins"], dtype=float)
             rolled = np.array(case["rolled"], dtype=np.float32).reshape(sr, sc, dr, dc)
-            for bsz in (None, 1, 2 if n > 2 else 1):
+            for bsz in [None] + list(range(1, n + 1)) + [n + 3]:      # every batch size, incl. non-dividing ones
                 om = CenterOfMassOriginModel.from_dataset(ds, device="cpu")
                 om.origin_fitted = torch.tensor(ro, dtype=torch.float)
                 om.shift_origin_to((0, 0), max_batch_size=bsz)
@@ -146,7 +146,11 @@ def check(rep, tier, seed):
             cases += cs
         rn = tlc.run_tlc("ComOrigin", "ComNEG.cfg", spec_dir=SPEC, workers=8, timeout=600)
         tlc.expect_violation(rn, "ComNEG (batch-total normalisation)", "ScheduleIndependent")
-        rep.note("negative_controls", ["ComNEG: normalising by the batch total"])
+        rs = tlc.run_tlc("ComOrigin", "ComNEG_shift.cfg", spec_dir=SPEC, workers=8, timeout=600)
+        tlc.expect_violation(rs, "ComNEG_shift (origins of a short last batch fetched at batch number * its length)",
+                             "ShiftScheduleIndependent")
+        rep.note("negative_controls", ["ComNEG: normalising by the batch total",
+                                       "ComNEG_shift: a short last batch shifted by the origins of earlier patterns"])
     finally:
         shutil.rmtree(tmp, ignore_errors=True)
     rep.note("cases", {"shapes": shapes, "replayed": len(cases)})
